@@ -4,6 +4,7 @@ import (
 	"crypto/sha1"
 	"context"
 	"errors"
+	"fmt"
 	"io"
 	"log"
 	mrand "math/rand/v2"
@@ -12,9 +13,11 @@ import (
 	"net/url"
 	"runtime"
 	"sync"
+	"syscall"
 	"time"
 
 	"golang.org/x/net/proxy"
+	"golang.org/x/sys/unix"
 )
 
 // Call substitutions (rule R3 of the rewriter).  Outside a run every
@@ -248,6 +251,27 @@ func LogSink() io.Writer { return logSink{} }
 var AllocFail func(size int) bool
 
 var ErrSimAlloc = errors.New("simulated allocation failure")
+
+// mmapFailNext is set by alloc.SimAlloc when the failure it decided to
+// inject belongs inside alloc.Alloc, at the mmap system call.
+var mmapFailNext bool
+
+// FailNextMmap arms a failure of the next unix.Mmap of the code under test.
+func FailNextMmap() { mmapFailNext = true }
+
+// MmapFailPending reports, and clears, a failure that was armed but not
+// consumed (the allocation did not reach mmap).
+func MmapFailPending() bool { p := mmapFailNext; mmapFailNext = false; return p }
+
+// Mmap replaces unix.Mmap in the code under test.
+func Mmap(fd int, offset int64, length int, prot int, flags int) ([]byte, error) {
+	if mmapFailNext && Active() {
+		mmapFailNext = false
+		Fault("alloc-fail-mmap")
+		return nil, fmt.Errorf("%w (mmap: %w)", ErrSimAlloc, syscall.ENOMEM)
+	}
+	return unix.Mmap(fd, offset, length, prot, flags)
+}
 
 // Poison overwrites a buffer that is about to be released.
 func Poison(p []byte) {
